@@ -59,8 +59,12 @@ func ToJobReferences(items []*execution.Job) []execution.JobReference {
 		refs = append(refs, ref)
 	}
 
-	// Sort refs to make return value deterministic.
+	// Sort refs to make return value deterministic. Creation timestamps only have a
+	// resolution of one second, so Jobs created in the same second are ordered by name.
 	sort.Slice(refs, func(i, j int) bool {
+		if refs[i].CreationTimestamp.Equal(&refs[j].CreationTimestamp) {
+			return refs[i].Name < refs[j].Name
+		}
 		return refs[i].CreationTimestamp.Before(&refs[j].CreationTimestamp)
 	})
 
